@@ -248,6 +248,10 @@ type frame struct {
 	private    map[*ssa.Alloc]bool     // locals captured only by deferred closures (no callee can write them)
 	exitStates map[int]*State          // loop ordinal -> merged state of the edges leaving the loop
 	exitCtx    map[int]*ssa.BasicBlock // a block after the loop (for resolving local names)
+	curBlk     *ssa.BasicBlock         // block being executed
+	curIdx     int                     // index of the instruction being executed in curBlk
+	armDefer   *ssa.Defer              // the deferred recover of a 'recovers' function (nil: not looked up / none)
+	armLooked  bool
 }
 
 type edge struct {
@@ -761,7 +765,8 @@ func (fr *frame) term(v ssa.Value) *Term {
 func (fr *frame) execBlock(b *ssa.BasicBlock, st *State, ins []edge, emit func(*ssa.BasicBlock, *State)) {
 	u := fr.u
 	c := u.C
-	for _, in := range b.Instrs {
+	for idx, in := range b.Instrs {
+		fr.curBlk, fr.curIdx = b, idx
 		u.steps++
 		if u.steps > 200000 {
 			unsupported("step budget exceeded")
@@ -832,19 +837,35 @@ func (fr *frame) onPanic(st *State, x *ssa.Panic) {
 }
 
 // recovers reports whether this frame (or an enclosing inlined frame's function) catches panics.
-func (fr *frame) recovers() bool {
-	for f := fr; f != nil; f = f.parent {
-		if f.bc != nil && f.bc.Recovers {
-			return true
-		}
+func (fr *frame) recovers() bool { return fr.recoverFrame() != nil }
+
+// armed: panics raised at the current program point of this frame are caught by its deferred recover, i.e. the
+// recovering defer statement has been executed on every path to this point (its block dominates the current block, or
+// it stands earlier in the same block). Before that point a panic is an ordinary failure.
+func (fr *frame) armed() bool {
+	if !fr.armLooked {
+		fr.armLooked = true
+		fr.armDefer = recoveringDefer(fr.fn)
 	}
-	return false
+	d := fr.armDefer
+	if d == nil || fr.curBlk == nil {
+		return d != nil
+	}
+	if d.Block() == fr.curBlk {
+		for i, in := range fr.curBlk.Instrs {
+			if in == ssa.Instruction(d) {
+				return i < fr.curIdx
+			}
+		}
+		return false
+	}
+	return d.Block().Dominates(fr.curBlk)
 }
 
-// recoverFrame: the nearest enclosing frame whose function recovers.
+// recoverFrame: the nearest enclosing frame whose function recovers (and whose recover is armed at this point).
 func (fr *frame) recoverFrame() *frame {
 	for f := fr; f != nil; f = f.parent {
-		if f.bc != nil && f.bc.Recovers {
+		if f.bc != nil && f.bc.Recovers && f.armed() {
 			return f
 		}
 	}
@@ -1063,6 +1084,21 @@ func (fr *frame) execInstr(st *State, in ssa.Instruction) {
 		fr.vals[x] = fv
 	case *ssa.MakeMap, *ssa.MapUpdate, *ssa.Lookup, *ssa.Range, *ssa.Next:
 		fr.mapInstr(st, in)
+	case *ssa.MakeChan:
+		// a channel is an opaque new object: nothing is known about what other goroutines send on it
+		a := u.newObj()
+		u.MC.Opaque[a.K] = true
+		fr.vals[x] = a
+	case *ssa.Select:
+		// waiting on receive cases only: some case fires with an arbitrary value; while the function waits other
+		// goroutines run - as for a go statement they are assumed not to touch this function's frame (listed)
+		for _, sst := range x.States {
+			if sst.Dir != types.RecvOnly {
+				unsupported("select with a send case")
+			}
+		}
+		u.Trusted["channel receive / select: the value received is arbitrary; goroutines running meanwhile do not write what this function reads"] = true
+		fr.vals[x] = u.symVal(u.freshName("select"), x.Type(), false)
 	default:
 		unsupported("instruction %T (%s)", in, in)
 	}
@@ -1254,6 +1290,10 @@ func (fr *frame) unop(st *State, x *ssa.UnOp) Val {
 		}
 		fr.nilCheck(st, a, x.Pos())
 		return u.load(st, a, x.Type())
+	case token.ARROW:
+		// channel receive: an arbitrary value (see ssa.Select above)
+		u.Trusted["channel receive / select: the value received is arbitrary; goroutines running meanwhile do not write what this function reads"] = true
+		return u.symVal(u.freshName("recv"), x.Type(), false)
 	case token.NOT:
 		return c.Not(fr.term(x.X))
 	case token.SUB:
